@@ -43,52 +43,114 @@ private theorem failIf_bind_ok {β} (c : Bool) (e : Err) (f : Unit → R β) (b 
   obtain ⟨u, _, h2⟩ := bind_ok _ _ _ h
   exact h2
 
-/-- what extending does to a built type: same name and kind, every eager reference is kept -/
-theorem extendType_refs (env : Env) (X : List TypeDef) (t r : TypeD) (h : extendType env X t = .ok r) :
-    r.name = t.name ∧ r.kind = t.kind ∧ ∀ m ∈ eagerRefs t, m ∈ eagerRefs r := by
-  unfold extendType at h
-  simp only [] at h
-  have h' := failIf_bind_ok _ _ _ _ h
-  cases hk : t.kind <;> simp only [hk] at h'
-  · -- scalar
-    have := ok_inj h'; subst this
-    exact ⟨rfl, hk, fun m hm => hm⟩
-  · -- object
-    obtain ⟨fs, hfs, h2⟩ := bind_ok _ _ _ h'
-    obtain ⟨is, his, h3⟩ := bind_ok _ _ _ h2
-    have := ok_inj h3; subst this
-    obtain ⟨sf, ef⟩ := foldlM_prefix _ (fun acc e r hh => mergeStep_prefix (buildField env) (·.name) (·.fields) acc e r hh) _ _ _ hfs
-    obtain ⟨si, ei⟩ := foldlM_prefix _ (fun acc e r hh => namesStep_prefix env (·.interfaces) acc e r hh) _ _ _ his
-    refine ⟨rfl, rfl, ?_⟩
-    intro m hm
-    simp only [eagerRefs, hk, List.mem_append] at hm ⊢
+/-! ### name, kind and eager references of a built definition are read off the definition -/
+
+def fieldRefsDef (fs : List FieldDef) : List String := fs.flatMap fun f => f.args.map (·.type.base)
+
+def eagerRefsDef (d : TypeDef) : List String :=
+  match d.kind with
+  | .object => d.interfaces ++ fieldRefsDef d.fields
+  | .interface => fieldRefsDef d.fields
+  | .union => d.members
+  | _ => []
+
+theorem buildArgument_type (env : Env) (a : InputValDef) (r : ArgD) (h : buildArgument env a = .ok r) : r.type.base = a.type.base := by
+  unfold buildArgument at h
+  obtain ⟨_, _, h2⟩ := bind_ok _ _ _ h
+  cases hd : a.default with
+  | none => simp only [hd] at h2; have := ok_inj h2; subst this; rfl
+  | some l => simp only [hd] at h2; obtain ⟨_, _, h3⟩ := bind_ok _ _ _ h2; have := ok_inj h3; subst this; rfl
+
+theorem buildArgumentX_type (eB eX : Env) (hide : Option String) (a : InputValDef) (r : ArgD) (h : buildArgumentX eB eX hide a = .ok r) : r.type.base = a.type.base := by
+  unfold buildArgumentX at h
+  obtain ⟨_, _, h2⟩ := bind_ok _ _ _ h
+  cases hd : a.default with
+  | none => simp only [hd] at h2; have := ok_inj h2; subst this; rfl
+  | some l => simp only [hd] at h2; obtain ⟨_, _, h3⟩ := bind_ok _ _ _ h2; have := ok_inj h3; subst this; rfl
+
+theorem buildField_refs (env : Env) (f : FieldDef) (r : FieldD) (h : buildField env f = .ok r) :
+    r.args.map (·.type.base) = f.args.map (·.type.base) := by
+  unfold buildField at h
+  obtain ⟨_, _, h2⟩ := bind_ok _ _ _ h
+  obtain ⟨as, has, h3⟩ := bind_ok _ _ _ h2
+  obtain ⟨_, _, h4⟩ := bind_ok _ _ _ h3
+  have := ok_inj h4; subst this
+  exact mapM_names _ (·.type.base) (·.type.base) (buildArgument_type env) _ _ has
+
+theorem buildFieldX_refs (eB eX : Env) (hide : Option String) (f : FieldDef) (r : FieldD) (h : buildFieldX eB eX hide f = .ok r) :
+    r.args.map (·.type.base) = f.args.map (·.type.base) := by
+  unfold buildFieldX at h
+  obtain ⟨_, _, h2⟩ := bind_ok _ _ _ h
+  obtain ⟨as, has, h3⟩ := bind_ok _ _ _ h2
+  obtain ⟨_, _, h4⟩ := bind_ok _ _ _ h3
+  have := ok_inj h4; subst this
+  exact mapM_names _ (·.type.base) (·.type.base) (buildArgumentX_type eB eX hide) _ _ has
+
+theorem fields_refs {bf : FieldDef → R FieldD} (hbf : ∀ f r, bf f = .ok r → r.args.map (·.type.base) = f.args.map (·.type.base))
+    (fs : List FieldDef) (rs : List FieldD) (h : fs.mapM bf = .ok rs) :
+    (rs.flatMap fun f => f.args.map (·.type.base)) = fieldRefsDef fs := by
+  have := mapM_names bf (fun f => f.args.map (·.type.base)) (fun f => f.args.map (·.type.base)) hbf _ _ h
+  simp only [fieldRefsDef, List.flatMap_def, this]
+
+theorem buildTypeDef_shape (env : Env) (d : TypeDef) (r : TypeD) (h : buildTypeDef env d = .ok r) :
+    r.name = d.name ∧ r.kind = d.kind ∧ eagerRefs r = eagerRefsDef d := by
+  unfold buildTypeDef at h
+  cases hk : d.kind <;> simp only [hk] at h
+  · have := ok_inj h; subst this; exact ⟨rfl, rfl, by simp [eagerRefs, eagerRefsDef, hk]⟩
+  · obtain ⟨fs, hfs, h1⟩ := bind_ok _ _ _ h
+    obtain ⟨_, _, h2⟩ := bind_ok _ _ _ h1
+    have := ok_inj h2; subst this
+    exact ⟨rfl, rfl, by simp only [eagerRefs, eagerRefsDef, hk, fields_refs (buildField_refs env) _ _ hfs]⟩
+  · obtain ⟨fs, hfs, h1⟩ := bind_ok _ _ _ h
+    have := ok_inj h1; subst this
+    exact ⟨rfl, rfl, by simp only [eagerRefs, eagerRefsDef, hk, fields_refs (buildField_refs env) _ _ hfs]⟩
+  · obtain ⟨_, _, h1⟩ := bind_ok _ _ _ h
+    have := ok_inj h1; subst this; exact ⟨rfl, rfl, by simp [eagerRefs, eagerRefsDef, hk]⟩
+  · obtain ⟨_, _, h1⟩ := bind_ok _ _ _ h
+    obtain ⟨_, _, h2⟩ := bind_ok _ _ _ h1
+    have := ok_inj h2; subst this; exact ⟨rfl, rfl, by simp [eagerRefs, eagerRefsDef, hk]⟩
+  · obtain ⟨_, _, h1⟩ := bind_ok _ _ _ h
+    have := ok_inj h1; subst this; exact ⟨rfl, rfl, by simp [eagerRefs, eagerRefsDef, hk]⟩
+
+theorem buildTypeDefX_shape (eB eX : Env) (hide : Option String) (d : TypeDef) (r : TypeD) (h : buildTypeDefX eB eX hide d = .ok r) :
+    r.name = d.name ∧ r.kind = d.kind ∧ eagerRefs r = eagerRefsDef d := by
+  unfold buildTypeDefX at h
+  cases hk : d.kind <;> simp only [hk] at h
+  · have := ok_inj h; subst this; exact ⟨rfl, rfl, by simp [eagerRefs, eagerRefsDef, hk]⟩
+  · obtain ⟨fs, hfs, h1⟩ := bind_ok _ _ _ h
+    obtain ⟨_, _, h2⟩ := bind_ok _ _ _ h1
+    have := ok_inj h2; subst this
+    exact ⟨rfl, rfl, by simp only [eagerRefs, eagerRefsDef, hk, fields_refs (buildFieldX_refs eB eX hide) _ _ hfs]⟩
+  · obtain ⟨fs, hfs, h1⟩ := bind_ok _ _ _ h
+    have := ok_inj h1; subst this
+    exact ⟨rfl, rfl, by simp only [eagerRefs, eagerRefsDef, hk, fields_refs (buildFieldX_refs eB eX hide) _ _ hfs]⟩
+  · obtain ⟨_, _, h1⟩ := bind_ok _ _ _ h
+    have := ok_inj h1; subst this; exact ⟨rfl, rfl, by simp [eagerRefs, eagerRefsDef, hk]⟩
+  · obtain ⟨_, _, h1⟩ := bind_ok _ _ _ h
+    obtain ⟨_, _, h2⟩ := bind_ok _ _ _ h1
+    have := ok_inj h2; subst this; exact ⟨rfl, rfl, by simp [eagerRefs, eagerRefsDef, hk]⟩
+  · obtain ⟨_, _, h1⟩ := bind_ok _ _ _ h
+    have := ok_inj h1; subst this; exact ⟨rfl, rfl, by simp [eagerRefs, eagerRefsDef, hk]⟩
+
+/-- merging extensions keeps every eager reference of the definition -/
+theorem eagerRefsDef_merge (X : List TypeDef) (t : TypeDef) : ∀ m ∈ eagerRefsDef t, m ∈ eagerRefsDef (mergeDef X t) := by
+  obtain ⟨s1, s2, s3, s4, s5, s6, s7, s8⟩ := mergeDef_spec X t
+  intro m hm
+  unfold eagerRefsDef at hm ⊢
+  rw [s1]
+  cases hk : t.kind <;> simp only [hk] at hm ⊢
+  · exact hm
+  · rw [s4, s5]
+    simp only [fieldRefsDef, List.flatMap_append, List.mem_append] at hm ⊢
     rcases hm with hm | hm
-    · left; rw [ei]; exact List.mem_append_left _ hm
-    · right; rw [ef, List.flatMap_append]; exact List.mem_append_left _ hm
-  · -- interface
-    obtain ⟨fs, hfs, h2⟩ := bind_ok _ _ _ h'
-    have := ok_inj h2; subst this
-    obtain ⟨sf, ef⟩ := foldlM_prefix _ (fun acc e r hh => mergeStep_prefix (buildField env) (·.name) (·.fields) acc e r hh) _ _ _ hfs
-    refine ⟨rfl, rfl, ?_⟩
-    intro m hm
-    simp only [eagerRefs, hk] at hm ⊢
-    rw [ef, List.flatMap_append]; exact List.mem_append_left _ hm
-  · -- union
-    obtain ⟨ms, hms, h2⟩ := bind_ok _ _ _ h'
-    have := ok_inj h2; subst this
-    obtain ⟨sm, em⟩ := foldlM_prefix _ (fun acc e r hh => namesStep_prefix env (·.members) acc e r hh) _ _ _ hms
-    refine ⟨rfl, rfl, ?_⟩
-    intro m hm
-    simp only [eagerRefs, hk] at hm ⊢
-    rw [em]; exact List.mem_append_left _ hm
-  · -- enum
-    obtain ⟨vs, _, h2⟩ := bind_ok _ _ _ h'
-    have := ok_inj h2; subst this
-    exact ⟨rfl, rfl, fun m hm => by simp [eagerRefs, hk] at hm⟩
-  · -- input
-    obtain ⟨fs, _, h2⟩ := bind_ok _ _ _ h'
-    have := ok_inj h2; subst this
-    exact ⟨rfl, rfl, fun m hm => by simp [eagerRefs, hk] at hm⟩
+    · exact Or.inl (Or.inl hm)
+    · exact Or.inr (Or.inl hm)
+  · rw [s4]
+    simp only [fieldRefsDef, List.flatMap_append, List.mem_append] at hm ⊢
+    exact Or.inl hm
+  · rw [s6]; exact List.mem_append_left _ hm
+  · exact hm
+  · exact hm
 
 /-! ### a subgraph has no more cycles -/
 
@@ -168,13 +230,34 @@ theorem all₂_imp {α β} (P Q : α → β → Prop) (hpq : ∀ a b, P a b → 
   | nil => exact All₂.nil
   | cons p _ ih => exact All₂.cons (hpq _ _ p) ih
 
-/-- **noEagerCycleBase is derived**: if extending the built definitions gives types without an eager cycle, the built
-    definitions had none -/
-theorem noEagerCycleBase_of_extended (env : Env) (X : List TypeDef) (bts rs : List TypeD)
-    (hext : bts.mapM (extendType env X) = .ok rs) (hr : hasEagerCycle rs = false) : hasEagerCycle bts = false := by
-  have h := mapM_forall₂ _ _ _ hext
-  exact hasEagerCycle_mono bts rs
-    (all₂_imp _ _ (fun a b hab => let ⟨h1, _, h3⟩ := extendType_refs env X a b hab; ⟨h1, h3⟩) _ _ h) hr
+theorem all₂_join {α β γ} (P : α → β → Prop) (Q : α → γ → Prop) (S : β → γ → Prop) (hs : ∀ a b c, P a b → Q a c → S b c) :
+    ∀ (l : List α) (bs : List β) (cs : List γ), All₂ P l bs → All₂ Q l cs → All₂ S bs cs := by
+  intro l bs cs h1
+  induction h1 generalizing cs with
+  | nil => intro h2; cases h2; exact All₂.nil
+  | cons p _ ih => intro h2; cases h2 with | cons q t2 => exact All₂.cons (hs _ _ _ p q) (ih _ t2)
+
+/-- the built definitions against the registered (extended) types: same name and kind, every eager reference kept -/
+theorem built_vs_extended (eB eX : Env) (hide : Option String) (X : List TypeDef) (defs : List TypeDef) (bts rs : List TypeD)
+    (hb : defs.mapM (buildTypeDef eB) = .ok bts) (hr : defs.mapM (fun t => buildTypeDefX eB eX hide (mergeDef X t)) = .ok rs) :
+    All₂ (fun bt r => r.name = bt.name ∧ r.kind = bt.kind ∧ ∀ m ∈ eagerRefs bt, m ∈ eagerRefs r) bts rs := by
+  refine all₂_join _ _ _ ?_ _ _ _ (mapM_forall₂ _ _ _ hb) (mapM_forall₂ _ _ _ hr)
+  intro t bt r h1 h2
+  obtain ⟨n1, k1, e1⟩ := buildTypeDef_shape eB t bt h1
+  obtain ⟨n2, k2, e2⟩ := buildTypeDefX_shape eB eX hide _ r h2
+  obtain ⟨s1, s2, _⟩ := mergeDef_spec X t
+  refine ⟨by rw [n1, n2, s2], by rw [k1, k2, s1], ?_⟩
+  intro m hm
+  rw [e1] at hm
+  rw [e2]
+  exact eagerRefsDef_merge X t m hm
+
+/-- **noEagerCycleBase is derived**: if the registered (extended) types have no eager cycle, the built definitions
+    had none -/
+theorem noEagerCycleBase_of_extended (bts rs : List TypeD)
+    (h : All₂ (fun bt r => r.name = bt.name ∧ r.kind = bt.kind ∧ ∀ m ∈ eagerRefs bt, m ∈ eagerRefs r) bts rs)
+    (hr : hasEagerCycle rs = false) : hasEagerCycle bts = false :=
+  hasEagerCycle_mono bts rs (all₂_imp _ _ (fun a b hab => ⟨hab.1, hab.2.2⟩) _ _ h) hr
 
 /-! ### root operation types: `rootsOk` is derived from syntactic conditions on the operations -/
 
@@ -260,7 +343,7 @@ def baseRoots (doc : Doc) (types : List TypeD) : Roots :=
   | none => defaultRoots types
 
 /-- **Syntactic validity** of a type-system document (what the builder is responsible for; kind rules are C13's) plus
-    **NoS8** (`defaultsAgree`). Nothing here mentions what the builder computes on the way. -/
+    **NoS8** (`baseDefaults`: what fix C14-T15 leaves of it). Nothing here mentions what the builder computes on the way. -/
 structure SdlOK (doc : Doc) (d : SchemaD) : Prop where
   uniqueTypes : ((typeDefs doc).map (·.name)).Nodup
   uniqueDirectives : ((dirDefs doc).map (·.name)).Nodup
@@ -270,7 +353,10 @@ structure SdlOK (doc : Doc) (d : SchemaD) : Prop where
   /-- every member of the merged definitions builds (references resolve, default literals are constants of their
       declared types over the merged definitions, `@deprecated` is well-formed) and `d` is the declared content -/
   declares : Declared doc = some d
-  defaultsAgree : DefaultsAgree doc
+  /-- every default literal written in a DEFINITION is a value over the definitions alone -/
+  baseDefaults : BaseDefaults doc
+  /-- no default of an input type's own field needs the type again while it is extended -/
+  selfDefaults : SelfDefaults doc
   membersUnique : ∀ r ∈ d.types, (r.fields.map (·.name)).Nodup ∧ (r.inputFields.map (·.name)).Nodup ∧ (r.values.map (·.name)).Nodup ∧
       r.members.Nodup ∧ r.interfaces.Nodup
   noThunkCycle : hasThunkCycle (Env.of (typeDefs doc)) (typeDefs doc) = false
@@ -295,22 +381,29 @@ private theorem declaredRoots_eq (doc : Doc) (types : List TypeD) :
   | nil => rfl
   | cons sd _ => rfl
 
+/-- the registered types of a valid document, against its built definitions -/
+theorem built_vs_declared (doc : Doc) (d : SchemaD) (hdecl : Declared doc = some d) (bts : List TypeD)
+    (hb : (typeDefs doc).mapM (buildTypeDef (Env.of (typeDefs doc))) = .ok bts) :
+    All₂ (fun bt r => r.name = bt.name ∧ r.kind = bt.kind ∧ ∀ m ∈ eagerRefs bt, m ∈ eagerRefs r) bts d.types := by
+  obtain ⟨hts, _, _⟩ := declared_parts doc d hdecl
+  have hX : (Env.of (typeDefs doc)).extended (typeExts doc) = Env.of (merged doc) := extended_eq _ _
+  refine built_vs_extended (Env.of (typeDefs doc)) ((Env.of (typeDefs doc)).extended (typeExts doc)) none (typeExts doc) _ _ _ hb ?_
+  rw [← mapM_map_eq]
+  refine mapM_of_ok _ _ (buildTypeDefX_of_ok _ _ (extended_resolves _ _)) _ _ ?_
+  rw [hX]; exact hts
+
 theorem validDoc_of_sdlOK (doc : Doc) (d : SchemaD) (v : SdlOK doc d) : ValidDoc doc d := by
-  have hms := mergedSame_of_defaultsAgree doc v.defaultsAgree
-  have hext : ∀ bts, (typeDefs doc).mapM (buildTypeDef (Env.of (typeDefs doc))) = .ok bts →
-      bts.mapM (extendType (Env.of (typeDefs doc)) (typeExts doc)) = .ok d.types :=
-    fun bts hb => ext_types doc d bts v.uniqueTypes v.extTargets v.declares hb hms v.membersUnique
   exact
     { uniqueTypes := v.uniqueTypes, uniqueDirectives := v.uniqueDirectives, oneSchema := v.oneSchema,
       noBuiltinNames := v.noBuiltinNames, extTargets := v.extTargets, declares := v.declares,
-      defaultsAgree := v.defaultsAgree, membersUnique := v.membersUnique, noThunkCycle := v.noThunkCycle,
+      baseDefaults := v.baseDefaults, selfDefaults := v.selfDefaults, membersUnique := v.membersUnique, noThunkCycle := v.noThunkCycle,
       noEagerCycle := v.noEagerCycle,
-      noEagerCycleBase := fun bts hb => noEagerCycleBase_of_extended _ _ bts d.types (hext bts hb) v.noEagerCycle,
+      noEagerCycleBase := fun bts hb => noEagerCycleBase_of_extended bts d.types (built_vs_declared doc d v.declares bts hb) v.noEagerCycle,
       noSpecified := v.noSpecified,
       rootsOk := by
         intro bts hb
-        have hall := all₂_imp _ _ (fun a b hab => let ⟨h1, h2, _⟩ := extendType_refs _ _ a b hab; (⟨h1, h2⟩ : b.name = a.name ∧ b.kind = a.kind))
-          _ _ (mapM_forall₂ _ _ _ (hext bts hb))
+        have hall := all₂_imp _ _ (fun a b hab => (⟨hab.1, hab.2.1⟩ : b.name = a.name ∧ b.kind = a.kind))
+          _ _ (built_vs_declared doc d v.declares bts hb)
         have hr := declared_roots doc d v.declares
         rw [declaredRoots_eq] at hr
         refine ⟨baseRoots doc d.types, ?_, ?_⟩
@@ -322,18 +415,19 @@ theorem validDoc_of_sdlOK (doc : Doc) (d : SchemaD) (v : SdlOK doc d) : ValidDoc
             exact addOps_ok _ _ sd.ops {} (fun o ho => ⟨empty_get _, hres o ho⟩) hn
         · rw [addOps_blocks_ok _ _ _ _ v.extOpsNew v.extOps, ← hr] }
 
-/-- **build_exact** (final form, documents with extensions): a syntactically valid document whose default literals
-    coerce to the same thing over the definitions alone and over the merged definitions (NoS8) builds exactly its
-    declared content. The only premises are `SdlOK`'s: nothing about intermediate results of the builder. -/
+/-- **build_exact** (final form, documents with extensions): a syntactically valid document in which every default
+    literal written in a DEFINITION is a value over the definitions alone (what is left of NoS8) builds exactly its
+    declared content — every extension merged, every default evaluated in the extended types. The only premises are
+    `SdlOK`'s: nothing about intermediate results of the builder. -/
 theorem build_exact_final (doc : Doc) (d : SchemaD) (v : SdlOK doc d) : build doc = .ok d :=
-  build_exact_of_defaultsAgree doc d (validDoc_of_sdlOK doc d v)
+  build_exact_of_baseDefaults doc d (validDoc_of_sdlOK doc d v)
 
 /-! ### non-vacuity -/
 
-/-- a document without default values trivially satisfies NoS8 -/
-theorem defaultsAgree_of_noDefaults (doc : Doc)
-    (h1 : ∀ t ∈ merged doc, ∀ a ∈ inputValsOf t, a.default.isNone = true)
-    (h2 : ∀ d ∈ dirDefs doc, ∀ a ∈ d.args, a.default.isNone = true) : DefaultsAgree doc := by
+/-- a document whose definitions have no default values trivially satisfies NoS8 -/
+theorem baseDefaults_of_noDefaults (doc : Doc)
+    (h1 : ∀ t ∈ typeDefs doc, ∀ a ∈ inputValsOf t, a.default.isNone = true)
+    (h2 : ∀ d ∈ dirDefs doc, ∀ a ∈ d.args, a.default.isNone = true) : BaseDefaults doc := by
   refine ⟨?_, ?_⟩
   · intro t ht a ha l hl; have := h1 t ht a ha; rw [hl] at this; cases this
   · intro d hd a ha l hl; have := h2 d hd a ha; rw [hl] at this; cases this
@@ -349,7 +443,13 @@ theorem extDeclares : (Declared extDoc).isSome = true := by decide
 theorem extDoc_ok : SdlOK extDoc ((Declared extDoc).get extDeclares) :=
   { uniqueTypes := by decide, uniqueDirectives := by decide, oneSchema := by decide, noBuiltinNames := by decide,
     extTargets := by decide, declares := by simp,
-    defaultsAgree := defaultsAgree_of_noDefaults extDoc (by decide) (by decide),
+    baseDefaults := baseDefaults_of_noDefaults extDoc (by decide) (by decide),
+    selfDefaults := by
+      intro t ht
+      by_cases hk : t.kind = .input
+      · exact selfDefaults_of_noDefaults _ _ _ _ _ (by rw [(mergeDef_spec _ t).1]; exact hk) (by
+          revert t; decide)
+      · exact selfDefaults_of_kind _ _ t _ hk,
     membersUnique := by decide, noThunkCycle := by decide, noEagerCycle := by decide, noSpecified := by decide,
     schemaOps := by decide, extOps := by decide, extOpsNew := by decide }
 
